@@ -616,6 +616,9 @@ def emit_request(case, obs):
     return {'op': 'emit', 'si': si, 'ddl': case['opts'] == 'ddl', 'pool': bool(case['warm']), 'bodyRaises': False, 'faults': [], 'prog': prog}, real
 
 
+# program steps that only send one statement and leave nothing behind in the session's memory when they fail: a swallowed failure of any
+# other step (an ORM load that is not cached, an object left unsaved, a modification that did not happen) changes what later flushes send
+PURE_STATEMENT_STEPS = ('raw_insert', 'raw_update', 'raw_delete', 'db_insert', 'db_insert_ret', 'raw_select', 'rawconn_insert', 'bulk_delete')
 STMT_LEVEL = ('connect', 'begin', 'read', 'write', 'commit', 'rollback', 'close')
 
 
@@ -640,10 +643,12 @@ def emit_request_fault(case, obs, base_req, parent_obs):
     if any(f[2] == 'after' or f[1] in FOREIGN for f in case['faults']): return None
     if obs['swallowed']:
         # the user's try/except swallowed a failure and the session went on.  Comparable only when the program step that failed is a
-        # single-statement step (raw statement, db.insert, bulk delete, a SELECT ...): a step of several statements that is cut short,
+        # single-statement step without ORM state (raw statement, db.insert, raw write on get_connection(), bulk delete, raw SELECT): a step of several statements that is cut short,
         # or a failed flush, leaves other work undone, so the later flushes of this run differ from the fault-free parent's
         for e in obs['events']:
             if e['outcome'] != 'ok' and e.get('caught'):
+                step = case['program'][e['step']] if e.get('step') is not None and e['step'] < len(case['program']) else None
+                if step is None or step[0] != 'try' or step[1][0] not in PURE_STATEMENT_STEPS: return None
                 own = [p for p in parent_obs['events'] if p.get('step') == e.get('step') and p['call'] in ('execute', 'executemany')
                        and not (p['kind'] or '').startswith(('pragma', 'begin'))]
                 if len(own) != 1 or own[0].get('flush_id') is not None: return None
